@@ -510,6 +510,19 @@ def _worker(shard):
                 except common.Infra:
                     raise
                 out.append(res)
+            elif kind == "qmark":
+                try:
+                    import snowflake.connector as sc
+                    sc.paramstyle = "qmark"
+                    try:
+                        qc = sc.connect(database="db1", schema="s1").cursor()
+                    finally:
+                        sc.paramstyle = "pyformat"
+                    qc.execute(t[1], t[2])
+                    rows = qc.fetchall()
+                    out.append(obs_cell(rows[0][0]) if len(rows) == 1 and len(rows[0]) == 1 else f"X:shape {rows!r}"[:200])
+                except Exception as e:
+                    out.append(obs_exc(e))
             elif kind == "one":
                 try:
                     cur.execute(t[1])
@@ -679,8 +692,18 @@ def build(chk):
         tasks.append(("tbl", table, sql, len(tables[table])))
         meta.append({"kind": "tbl", "table": table, "sql": sql, "tag": tag, "E": enc_list(toks)})
 
+    # FLATTEN of the VARIANT table column itself / of a path of it, for the documents that hold an array there
+    for di, d in enumerate(tables["tg"]):
+        arr_at = [("v", d)] if isinstance(d, list) else [("v:a", d["a"])] if isinstance(d, dict) and isinstance(d.get("a"), list) else []
+        for acc, arr in arr_at:
+            if rnd.random() < (0.15 if quick else 1.0):
+                for mode, proj in (("value", "f.value"), ("text", "f.value::varchar")):
+                    sql = f"select {proj} from (select v from tg where id = {di}) t, lateral flatten(input => t.{acc}) f"
+                    tasks.append(("rows", sql))
+                    meta.append({"kind": "flatten", "sql": sql, "line": f"json\tflatten\t{enc_json(arr)}\t{mode}", "tag": "flatten:inputs:variant-column:" + mode})
     # the same expressions over a PARSE_JSON literal instead of a column (a sample)
-    lit_pick = rnd.sample(range(len(meta)), min(len(meta), 140 if quick else 3000))
+    tbl_idx = [i for i, m in enumerate(meta) if m["kind"] == "tbl"]
+    lit_pick = rnd.sample(tbl_idx, min(len(tbl_idx), 140 if quick else 3000))
     for i in lit_pick:
         m = meta[i]
         docs = tables[m["table"]]
@@ -750,6 +773,28 @@ def build_small(chk, rnd, tasks, meta):
                     continue
                 tasks.append(("one", full))
                 meta.append({"kind": "lit", "sql": full, "doc": pieces, "E": enc_list(toks), "tag": "split:use"})
+    # subject / separator written as EXPRESSIONS (path casts, function calls, concatenation) and as bound parameters
+    src_doc = {"csv": "a|b|c", "sep": "|", "csv2": "x, y,z", "sep2": ","}
+    frm = f" from (select parse_json({sql_str(dumps(src_doc))}) as v) d"
+    xs = [("split(v:csv::varchar, v:sep::varchar)", "a|b|c", "|"), ("split('a|b|c', v:sep::varchar)", "a|b|c", "|"), ("split(v:csv2::varchar, v:sep2::string)", "x, y,z", ","),
+          ("split(v:csv::varchar, '|')", "a|b|c", "|"), ("split('a|b', lower('|'))", "a|b", "|"), ("split('a,b', ',' || '')", "a,b", ","), ("split('a b c', chr(32))", "a b c", " "),
+          ("split('a--b', repeat('-', 2))", "a--b", "--"), ("split(upper('a,b'), trim(' , '))", "A,B", ","), ("split('a|b|c', get_path(v, 'sep')::varchar)", "a|b|c", "|"),
+          ("split(v:csv::varchar, coalesce(v:nosuch::varchar, v:sep::varchar))", "a|b|c", "|")]
+    for e, subj, sep in xs:
+        pieces = subj.split(sep)
+        sql = f"select {e}{frm}"
+        tasks.append(("one", sql))
+        meta.append({"kind": "split", "sql": sql, "s": subj, "sep": sep, "pieces": pieces, "line": None, "tag": "split:expression-args"})
+        sql = f"select array_size({e}){frm}"
+        tasks.append(("one", sql))
+        meta.append({"kind": "fixed_one", "sql": sql, "want": f"I{len(pieces)}", "tag": "split:expression-args:size"})
+        sql = f"select f.value::varchar{frm}, lateral flatten(input => {e}) f"
+        tasks.append(("rows", sql))
+        meta.append({"kind": "flatten", "sql": sql, "line": f"json\tflatten\t{enc_json(pieces)}\ttext", "tag": "split:expression-args:flatten"})
+    for sql, params, subj, sep in [("select split(?, ?)", ("a|b|c", "|"), "a|b|c", "|"), ("select split('a|b|c', ?)", ("|",), "a|b|c", "|"), ("select split(?, ',')", ("x,y",), "x,y", ","),
+                                   ("select split(?, ?)", ("a b", " "), "a b", " ")]:
+        tasks.append(("qmark", sql, params))
+        meta.append({"kind": "split", "sql": f"{sql} with parameters {params}", "s": subj, "sep": sep, "pieces": subj.split(sep), "line": None, "tag": "split:bound-parameters"})
     # multi-character separators: sampled against Python only (outside the Lean model)
     for s, sep in [("a::b::c", "::"), ("abcabc", "bc"), ("aaa", "aa"), ("x", "xyz"), ("", "ab")]:
         sql = f"select split({sql_str(s)}, {sql_str(sep)})"
@@ -770,6 +815,27 @@ def build_small(chk, rnd, tasks, meta):
                 sql = f"select {proj} from {src}"
                 tasks.append(("rows", sql))
                 meta.append({"kind": "flatten", "sql": sql, "line": f"json\tflatten\t{enc_json(d)}\t{mode}", "tag": "flatten:" + mode})
+    # FLATTEN over inputs that are not a plain path: TRY_PARSE_JSON (literal text, VARCHAR column), ARRAY_CONSTRUCT, OBJECT_CONSTRUCT(..):path, a VARIANT column
+    for d in [[1, "a"], ["x", ' q"u '], [], [3, 1, 2], [[1], {"k": "v"}]]:
+        txt = sql_str(dumps(d))
+        for mode, proj in (("value", "f.value"), ("text", "f.value::varchar")):
+            for src in (f"lateral flatten(input => try_parse_json({txt})) f", f"(select {txt} as s) x, lateral flatten(input => try_parse_json(x.s)) f",
+                        f"(select 1 as one) o, lateral flatten(input => try_parse_json({txt})) f",
+                        f"lateral flatten(input => object_construct('k', parse_json({txt})):k) f",
+                        f"(select parse_json({txt}) as col) c, lateral flatten(input => c.col) f", f"(select parse_json({txt}) as col) c, lateral flatten(input => col) f"):
+                sql = f"select {proj} from {src}"
+                tasks.append(("rows", sql))
+                meta.append({"kind": "flatten", "sql": sql, "line": f"json\tflatten\t{enc_json(d)}\t{mode}", "tag": "flatten:inputs:" + mode})
+    for items, d in (("1, 2, 3", [1, 2, 3]), ("'a', 'b'", ["a", "b"]), ("", [])):
+        for mode, proj in (("value", "f.value"), ("text", "f.value::varchar")):
+            for src in (f"lateral flatten(input => array_construct({items})) f", f"lateral flatten(input => [{items}]) f"):
+                sql = f"select {proj} from {src}"
+                tasks.append(("rows", sql))
+                m_ = {"kind": "flatten", "sql": sql, "line": f"json\tflatten\t{enc_json(d)}\t{mode}", "tag": "flatten:inputs:array_construct:" + mode}
+                if any(isinstance(x, str) for x in d):
+                    # a native VARCHAR list cast to JSON[] parses each string as JSON text
+                    m_.update(force_impl="Econv", force_key="C11/flatten-native-string-list")
+                meta.append(m_)
     # spelled-out FLATTEN arguments; empty / missing arrays
     for d in [[], [1, "x"], None, ["only"], [None]]:
         for extra, mode in ((", outer => false", "value"), (", outer => true", "outer"), (", recursive => false", "value"), (", mode => 'ARRAY'", "value"),
@@ -891,9 +957,13 @@ def judge(chk, tables, meta, reals, replies, index):
         elif kind in ("obj", "arr", "flatten"):
             (_, rep), = by_meta[mi]
             rep = dict(rep)
+            if m.get("force_key"):
+                rep["impl"], rep["finding"] = m["force_impl"], m["force_key"]
             if kind == "obj" and m["fn"].endswith("keep_null"):
                 rep["spec"], rep["impl"], rep["finding"] = rep["keep"], rep["keep"], "-"
             case = {"kind": kind, "sql": m["sql"], "line": m["line"]}
+            if m.get("force_key"):
+                case.update(force_impl=m["force_impl"], force_key=m["force_key"])
             thm = {"obj": "C11_object_construct_partial", "arr": "finding_array_literal (model of array literals)", "flatten": "C11_flatten/C11_flatten_text"}[kind]
             v = verdict(chk, rep, real, case, f"`{m['sql']}`", thm + " (correspondence)")
             if v != "skip":
@@ -920,6 +990,11 @@ def judge(chk, tables, meta, reals, replies, index):
             if not ok:
                 chk.violation(f"`{m['sql']}` returned {real!r}, the document is {dumps(d)}", {"kind": "parse", "sql": m["sql"], "doc": d},
                               broken="PARSE_JSON round trip (oracle: the document)")
+        elif kind == "fixed_one":
+            chk.case((m["sql"],), nontrivial=True)
+            chk.count(m["tag"])
+            if real != m["want"]:
+                chk.violation(f"`{m['sql']}` returned {real!r}, required {m['want']}", {"kind": "fixed_one", "sql": m["sql"], "want": m["want"]}, broken="C11_split (expression arguments)")
         elif kind == "parse_bad":
             chk.case((m["sql"],), nontrivial=False)
             chk.count(m["tag"])
@@ -1052,6 +1127,8 @@ def replay(chk, case) -> None:
     elif kind in ("obj", "arr", "flatten"):
         real = _worker(({}, [("rows" if kind == "flatten" else "one", case["sql"])]))[0]
         rep = dict(common.batch([case["line"]])[0])
+        if case.get("force_key"):
+            rep["impl"], rep["finding"] = case["force_impl"], case["force_key"]
         if kind == "obj" and "keep_null" in case["sql"]:
             rep["spec"], rep["impl"], rep["finding"] = rep["keep"], rep["keep"], "-"
         verdict(chk, rep, real, case, f"`{case['sql']}`", "correspondence")
@@ -1060,6 +1137,10 @@ def replay(chk, case) -> None:
         pieces = case["s"].split(case["sep"])
         if not (real.startswith("S") and _json_eq(real[1:], pieces)):
             chk.violation(f"`{case['sql']}` returned {real!r}, Python's split gives {pieces}", case, broken="C11_split")
+    elif kind == "fixed_one":
+        real = _worker(({}, [("one", case["sql"])]))[0]
+        if real != case["want"]:
+            chk.violation(f"`{case['sql']}` returned {real!r}, required {case['want']}", case, broken="C11_split (expression arguments)")
     elif kind in ("parse", "parse_bad"):
         real = _worker(({}, [("one", case["sql"])]))[0]
         d = case.get("doc")
